@@ -179,36 +179,43 @@ structure Csr (α : Type) (nr cap : Nat) where
   rowadr : Vector Nat nr
   colind : Vector Nat cap
 
+/-- body of the inner loop of `mju_compressSparse` for the entry at old address `adrOld`; state =
+`(mat, colind, adr, nnz)` -/
+def compressEntry {cap : Nat} (removeSmall : Bool) (minval : α) (adrOld : Nat)
+    (st : Vector α cap × Vector Nat cap × Nat × Nat) : Option (Vector α cap × Vector Nat cap × Nat × Nat) := do
+  let (mat, colind, adr, nnz) := st
+  let v ← rd mat adrOld
+  if removeSmall ∧ abs v ≤ minval then pure st
+  else
+    let c ← rd colind adrOld
+    if adr ≠ adrOld then do
+      let mat ← wr mat adr v
+      let colind ← wr colind adr c
+      pure (mat, colind, adr + 1, if removeSmall then nnz + 1 else nnz)
+    else pure (mat, colind, adr + 1, if removeSmall then nnz + 1 else nnz)
+
+/-- one row of `mju_compressSparse`; state = arrays and the write address -/
+def compressRow {cap : Nat} (removeSmall : Bool) (minval : α) (r : Nat) (st : Csr α nr cap × Nat) :
+    Option (Csr α nr cap × Nat) := do
+  let m := st.1
+  let adr := st.2
+  -- save old rowadr, record new
+  let rowadrOld ← rd m.rowadr r
+  let nnzOld ← rd m.rownnz r
+  let rowadr ← wr m.rowadr r adr
+  -- shift mat and colind
+  let inner ← loopM nnzOld (fun t st => compressEntry removeSmall minval (rowadrOld + t) st) (m.mat, m.colind, adr, 0)
+  let rownnz ← if removeSmall then wr m.rownnz r inner.2.2.2 else some m.rownnz
+  pure ({ mat := inner.1, rownnz := rownnz, rowadr := rowadr, colind := inner.2.1 }, inner.2.2.1)
+
 /-- `mju_compressSparse(mat, nr, nc, rownnz, rowadr, colind, minval)`: shifts the rows to the front in place,
 dropping `|value| ≤ minval` when `minval ≥ 0`; returns the arrays and the return value
 `rowadr[nr-1] + rownnz[nr-1]` (`none` also for `nr = 0`, where the C code reads index −1). -/
 def compressSparse {cap : Nat} (m : Csr α nr cap) (minval : α) : Option (Csr α nr cap × Nat) :=
-  let removeSmall : Bool := decide (lit 0 ≤ minval)
-  let r := loopM nr (fun r (st : Csr α nr cap × Nat) => do
-      let m := st.1
-      let adr := st.2
-      let rowadrOld ← rd m.rowadr r
-      let nnzOld ← rd m.rownnz r
-      let rowadr ← wr m.rowadr r adr
-      let inner ← loopM nnzOld (fun t (st : Vector α cap × Vector Nat cap × Nat × Nat) => do
-          let (mat, colind, adr, nnz) := st
-          let adrOld := rowadrOld + t
-          let v ← rd mat adrOld
-          if removeSmall ∧ abs v ≤ minval then pure st
-          else
-            let c ← rd colind adrOld
-            let mat ← if adr ≠ adrOld then wr mat adr v else some mat
-            let colind ← if adr ≠ adrOld then wr colind adr c else some colind
-            pure (mat, colind, adr + 1, if removeSmall then nnz + 1 else nnz))
-        (m.mat, m.colind, adr, 0)
-      let (mat, colind, adr, nnz) := inner
-      let rownnz ← if removeSmall then wr m.rownnz r nnz else some m.rownnz
-      pure ({ mat := mat, rownnz := rownnz, rowadr := rowadr, colind := colind }, adr))
-    (m, 0)
-  r.bind (fun st =>
+  (loopM nr (compressRow (decide (lit 0 ≤ minval)) minval) (m, 0)).bind (fun st =>
     if h : 0 < nr then some (st.1, st.1.rowadr[nr - 1] + st.1.rownnz[nr - 1]) else none)
 
-/-! ### `mju_transposeSparse` (with `res_rowsuper = NULL`) -/
+/-! ### `mju_transposeSparse` (with `res_rowsuper = NULL`), phase by phase -/
 
 structure TrOut (α : Type) (nc cap : Nat) where
   res : Vector α cap
@@ -216,53 +223,71 @@ structure TrOut (α : Type) (nc cap : Nat) where
   rowadr : Vector Nat nc
   colind : Vector Nat cap
 
+/-- phase 1, one entry: `res_rownnz[colind[j]]++` -/
+def trCountEntry {nc cap : Nat} (colind : Vector Nat cap) (j : Nat) (cnt : Vector Nat nc) : Option (Vector Nat nc) := do
+  let c ← rd colind j
+  let x ← rd cnt c
+  wr cnt c (x + 1)
+
+/-- phase 1: count the number of non-zeros for each row of the transposed matrix; input addresses are taken
+relative to `rowOffset = rowadr[0]` exactly as in the C code (`start = rowadr[r] - row_offset`) -/
+def trCount {cap : Nat} (rownnz rowadr : Vector Nat nr) (colind : Vector Nat cap) (rowOffset : Nat) (nc : Nat) :
+    Option (Vector Nat nc) :=
+  loopM nr (fun r (cnt : Vector Nat nc) => do
+      let a ← rd rowadr r
+      let nz ← rd rownnz r
+      if a < rowOffset then none else
+      loopM nz (fun t cnt => trCountEntry colind (a - rowOffset + t) cnt) cnt)
+    (Vector.replicate nc 0)
+
+/-- phase 2: `res_rowadr[i] = res_rowadr[i-1] + res_rownnz[i-1]` -/
+def trStarts {nc : Nat} (cnt : Vector Nat nc) (adr0 : Vector Nat nc) : Option (Vector Nat nc) :=
+  loopM (nc - 1) (fun t (adr : Vector Nat nc) => do
+      let a ← rd adr t
+      let n ← rd cnt t
+      wr adr (t + 1) (a + n)) adr0
+
+/-- phase 3, one entry: `adr = res_rowadr[c]++; res_colind[adr] = r; res[adr] = mat[i]` -/
+def trFillEntry {nc cap capT : Nat} (mat : Vector α cap) (colind : Vector Nat cap) (r i : Nat)
+    (st : Vector α capT × Vector Nat capT × Vector Nat nc) : Option (Vector α capT × Vector Nat capT × Vector Nat nc) := do
+  let (res, rcol, adr) := st
+  let c ← rd colind i
+  let ad ← rd adr c
+  let adr ← wr adr c (ad + 1)
+  let rcol ← wr rcol ad r
+  let v ← rd mat i
+  let res ← wr res ad v
+  pure (res, rcol, adr)
+
+/-- phase 3: iterate through each row (column) of mat (res) -/
+def trFill {nc cap capT : Nat} (mat : Vector α cap) (rownnz rowadr : Vector Nat nr) (colind : Vector Nat cap)
+    (rowOffset : Nat) (st : Vector α capT × Vector Nat capT × Vector Nat nc) :
+    Option (Vector α capT × Vector Nat capT × Vector Nat nc) :=
+  loopM nr (fun r st => do
+      let a ← rd rowadr r
+      let nz ← rd rownnz r
+      loopM nz (fun t st => trFillEntry mat colind r (a - rowOffset + t) st) st) st
+
+/-- phase 4: shift back row addresses -/
+def trShift {nc : Nat} (adr : Vector Nat nc) : Option (Vector Nat nc) := do
+  let adr ← loopM (nc - 1) (fun t (adr : Vector Nat nc) => do
+      let i := nc - 1 - t
+      let a ← rd adr (i - 1)
+      wr adr i a) adr
+  wr adr 0 0
+
 /-- `mju_transposeSparse(res, mat, nr, nc, res_rownnz, res_rowadr, res_colind, NULL, rownnz, rowadr, colind)`.
-The input addresses are taken relative to `rowadr[0]` exactly as in the C code
-(`start = rowadr[r] - row_offset`).  For `nr = 0` or `nc = 0` the outputs are returned unchanged. -/
+For `nr = 0` or `nc = 0` the outputs are returned unchanged. -/
 def transposeSparse {capT : Nat} (mat : Vector α cap) (rownnz rowadr : Vector Nat nr) (colind : Vector Nat cap)
     (nc : Nat) (out : TrOut α nc capT) : Option (TrOut α nc capT) :=
   if h0 : nr = 0 ∨ nc = 0 then some out
   else do
     let rowOffset := rowadr[0]'(by omega)
-    -- count the number of non-zeros for each row of the transposed matrix
-    let cnt ← loopM nr (fun r (cnt : Vector Nat nc) => do
-        let a ← rd rowadr r
-        let nz ← rd rownnz r
-        if a < rowOffset then none else
-        loopM nz (fun t (cnt : Vector Nat nc) => do
-          let c ← rd colind (a - rowOffset + t)
-          let x ← rd cnt c
-          wr cnt c (x + 1)) cnt)
-      (Vector.replicate nc 0)
-    -- compute the row addresses for the transposed matrix
-    let adr0 : Vector Nat nc := out.rowadr.set 0 0 (by omega)
-    let adr ← loopM (nc - 1) (fun t (adr : Vector Nat nc) => do
-        let a ← rd adr t
-        let n ← rd cnt t
-        wr adr (t + 1) (a + n)) adr0
-    -- iterate through each row (column) of mat (res)
-    let st ← loopM nr (fun r (st : Vector α capT × Vector Nat capT × Vector Nat nc) => do
-        let a ← rd rowadr r
-        let nz ← rd rownnz r
-        loopM nz (fun t (st : Vector α capT × Vector Nat capT × Vector Nat nc) => do
-          let (res, rcol, adr) := st
-          let i := a - rowOffset + t
-          let c ← rd colind i
-          let ad ← rd adr c
-          let adr ← wr adr c (ad + 1)
-          let rcol ← wr rcol ad r
-          let v ← rd mat i
-          let res ← wr res ad v
-          pure (res, rcol, adr)) st)
-      (out.res, out.colind, adr)
-    let (res, rcol, adr) := st
-    -- shift back row addresses
-    let adr ← loopM (nc - 1) (fun t (adr : Vector Nat nc) => do
-        let i := nc - 1 - t
-        let a ← rd adr (i - 1)
-        wr adr i a) adr
-    let adr ← wr adr 0 0
-    pure { res := res, rownnz := cnt, rowadr := adr, colind := rcol }
+    let cnt ← trCount rownnz rowadr colind rowOffset nc
+    let adr ← trStarts cnt (out.rowadr.set 0 0 (by omega))
+    let st ← trFill mat rownnz rowadr colind rowOffset (out.res, out.colind, adr)
+    let adr ← trShift st.2.2
+    pure { res := st.1, rownnz := cnt, rowadr := adr, colind := st.2.1 }
 
 /-! ### `mju_combineSparseCount`, `mju_combineSparse` (engine_util_sparse.c / .h) -/
 
